@@ -312,8 +312,12 @@ class Ctx:
               "coverage": cov, "assumptions": self.assumptions, "wall_s": round(time.time() - self.t0, 1),
               "violations": len(self.violations), "status": status,
               "known_findings_hit": [h["entry"]["text"] for h in self.known_hits]}
-        os.makedirs(os.path.join(VERIF, "evidence"), exist_ok=True)
-        p = os.path.join(VERIF, "evidence", self.prop + ".json")
+        # evidence/ describes runs against /repo itself: a run against another tree (VERIF_REPO = seeded / mutated worktree)
+        # writes its record elsewhere so that it can never be mistaken for, or overwrite, the evidence of the real tree
+        evdir = os.path.join(VERIF, "evidence") if REPO == "/repo" else os.path.join("/var/tmp", "verif-evidence-other")
+        os.makedirs(evdir, exist_ok=True)
+        ev["repo"] = REPO
+        p = os.path.join(evdir, self.prop + ".json")
         tmp = p + ".tmp"
         with open(tmp, "w") as fh:
             json.dump(ev, fh, indent=1, default=str)
